@@ -24,11 +24,14 @@ fn own_shares(ex: &Exec, n: usize, p: usize, input_regs: &[usize], input: &[bool
     let other = (0..n).find(|q| *q != p)?;
     let masked = opt_vec(ex, p, other, "masked inputs")?;
     let mut out = vec![];
+    let mut wire_shares = vec![];
+    for q in (0..n).filter(|q| *q != p) {
+        wire_shares.push(opt_vec(ex, q, p, "wire shares")?);
+    }
     for (i, w) in input_regs.iter().enumerate() {
         let Some(Val::Bool(mb)) = masked.get(*w)?.as_ref() else { return None };
         let mut v = (*mb != 0) ^ input[i];
-        for q in (0..n).filter(|q| *q != p) {
-            let ws = opt_vec(ex, q, p, "wire shares")?;
+        for ws in &wire_shares {
             let Some(Val::Tuple(t)) = ws.get(*w)?.as_ref() else { return None };
             let Val::Bool(b) = t[0] else { return None };
             v ^= b != 0;
@@ -384,12 +387,138 @@ fn correlation_part(rep: &mut Report, seed: u64, n_runs: usize, ands: usize) {
     }
 }
 
+// ---- (6) exact disclosure anywhere in the raw traffic, many input wires ------------------------------
+
+struct Raw {
+    harness: Option<String>,
+    shares: Vec<bool>,
+    inputs: Vec<bool>,
+    /// all bytes the party sent, in transcript order
+    sent: Vec<u8>,
+    /// (label, occurrence, first byte index in `sent`)
+    layout: Vec<(String, usize, usize)>,
+}
+
+fn raw_run(i: usize, seed: u64, p: usize, k: usize) -> Raw {
+    let mut rng = ChaCha8Rng::seed_from_u64(seed ^ 0x4a3 ^ (i as u64).wrapping_mul(0x9e3779b97f4a7c15) ^ ((p as u64) << 40) ^ ((k as u64) << 20));
+    let (c, regs) = corr_circuit(p, k, 4);
+    let secret: Vec<bool> = (0..k).map(|_| rng.random()).collect();
+    let inputs: Vec<Vec<bool>> = (0..2).map(|q| if q == p { secret.clone() } else { vec![rng.random(), rng.random()] }).collect();
+    let case = Case::new(c, inputs.clone(), 0, vec![0, 1]);
+    let ex = exec_mpc(case);
+    let mut out = Raw { harness: None, shares: vec![], inputs: secret.clone(), sent: vec![], layout: vec![] };
+    if ex.end != RunEnd::AllFinished || !ex.outcomes.iter().all(|o| matches!(o, Outcome::Done(Ok(_)))) {
+        out.harness = Some(format!("honest run failed: {:?}", ex.end));
+        return out;
+    }
+    match own_shares(&ex, 2, p, &regs, &secret) {
+        Some(s) => out.shares = s,
+        None => {
+            out.harness = Some("could not decode masked inputs / wire shares".into());
+            return out;
+        }
+    }
+    for m in ex.net.msgs.iter().filter(|m| m.from == p) {
+        out.layout.push((ex.net.label(m.label).to_string(), m.k, out.sent.len()));
+        out.sent.extend_from_slice(&m.sent);
+    }
+    out
+}
+
+/// Over N <= 64 executions with random inputs of a party with k input wires: no bit at a fixed
+/// position of the party's raw traffic equals (or complements) its own mask share of an input wire,
+/// or the input bit itself, in every execution.
+fn raw_disclosure_part(rep: &mut Report, seed: u64, n_runs: usize, k: usize, p: usize) {
+    let role = if p == 0 { "evaluator" } else { "garbler" };
+    let runs = parallel_for(n_runs, threads(), |i| raw_run(i, seed, p, k));
+    let good: Vec<&Raw> = runs.iter().filter(|r| r.harness.is_none()).collect();
+    for r in runs.iter().filter(|r| r.harness.is_some()) {
+        rep.evaluations += 1;
+        rep.harness_error(r.harness.clone().unwrap_or_default());
+    }
+    rep.evaluations += good.len() as u64;
+    if good.len() < 56 || good.len() > 64 {
+        rep.inconclusive("too few executions for the exact-disclosure scan");
+        return;
+    }
+    let nbytes = good[0].sent.len();
+    if good.iter().any(|r| r.sent.len() != nbytes || r.layout.len() != good[0].layout.len()) {
+        rep.harness_error("traffic layout differs between executions (judged by C09)");
+        return;
+    }
+    let n = good.len();
+    let full: u64 = if n == 64 { u64::MAX } else { (1u64 << n) - 1 };
+    // per-wire vectors over the executions
+    let mut keys: std::collections::HashMap<u64, (usize, &'static str, bool)> = Default::default();
+    for w in 0..k {
+        let mut sv = 0u64;
+        let mut iv = 0u64;
+        for (e, r) in good.iter().enumerate() {
+            sv |= (r.shares[w] as u64) << e;
+            iv |= (r.inputs[w] as u64) << e;
+        }
+        keys.insert(sv, (w, "own mask share", false));
+        keys.insert(!sv & full, (w, "own mask share", true));
+        keys.insert(iv, (w, "plain input bit", false));
+        keys.insert(!iv & full, (w, "plain input bit", true));
+    }
+    rep.add("raw_disclosure_bit_positions", (nbytes * 8) as u64);
+    rep.add("raw_disclosure_wires", k as u64);
+    rep.distinct.insert(format!("raw-disclosure|{role}|inputs={k}"));
+    let nth = threads();
+    let chunk = nbytes.div_ceil(nth).max(1);
+    let hits: Vec<Vec<(usize, usize, (usize, &'static str, bool))>> = parallel_for(nth, nth, |t| {
+        let mut found = vec![];
+        let lo = t * chunk;
+        let hi = ((t + 1) * chunk).min(nbytes);
+        for b in lo..hi {
+            let mut v = [0u64; 8];
+            for (e, r) in good.iter().enumerate() {
+                let byte = r.sent[b];
+                for (i, vi) in v.iter_mut().enumerate() {
+                    *vi |= (((byte >> i) & 1) as u64) << e;
+                }
+            }
+            for (i, vi) in v.iter().enumerate() {
+                if *vi == 0 || *vi == full {
+                    continue; // constant bit
+                }
+                if let Some(h) = keys.get(vi) {
+                    found.push((b, i, *h));
+                    if found.len() > 64 { return found; }
+                }
+            }
+        }
+        found
+    });
+    let label_of = |pos: usize| -> (String, usize, usize) {
+        let mut cur = (String::from("?"), 0, 0);
+        for (l, kk, s) in &good[0].layout {
+            if *s <= pos { cur = (l.clone(), *kk, pos - *s); } else { break; }
+        }
+        cur
+    };
+    let mut reported: std::collections::HashSet<(String, &'static str)> = Default::default();
+    let mut total = 0usize;
+    for (b, bit, (w, what, compl)) in hits.into_iter().flatten() {
+        total += 1;
+        let (label, kk, off) = label_of(b);
+        if reported.insert((label.clone(), what)) {
+            rep.violation(
+                format!("a bit at a fixed position of the {role}'s raw traffic ('{label}') equals its {what} of an input wire in every execution"),
+                json!({"role": role, "input_wire": w, "complemented": compl, "label": label, "occurrence": kk, "byte_in_message": off, "bit": bit, "executions": n, "input_wires": k}),
+            );
+        }
+    }
+    rep.add("raw_disclosure_hits", total as u64);
+}
+
 pub fn run(tier: &str, seed: u64) -> i32 {
     let thorough = tier == "thorough";
     let mut rep = Report::new("C06", tier, seed, "exploration");
     let n_per = if thorough { 2048 } else { 256 };
     let (lo, hi) = (n_per * 48 / 256, n_per * 208 / 256);
-    rep.rule = format!("(1) balance: for the evaluator and a garbler (n=2), {n_per} executions with all own inputs 0 and {n_per} with all 1; per input wire the party's own mask share, recovered from the transcript only as masked_input ^ input ^ XOR of the others' shares, must be 1 in [{lo}, {hi}] of the executions. (2) canary: 128 random input bits must not occur in any message the party sends as packed bit run (either bit order), bool-byte run, decoded-bool run, nor complemented; the same for its own share vector. (3) freshness: all global keys (probe) and all 128-bit own-share vectors over all executions pairwise distinct. (5) per-peer independence: in 3- and 4-party runs no random-looking 16-byte block of a party's pairwise (non-broadcast) traffic to one peer occurs in its traffic to another peer. (4) disclosure: over 128+ executions with random inputs (3-AND circuit and a 1000-AND circuit whose preprocessing batches are full) no bit-valued field at a fixed position of the party's traffic (decoded bools, opened aShare check bits) agrees or disagrees with its own mask share of an input wire, or with the input bit, in more than 7/8 of the executions. distinct = (role, input value, wire) cells of the balance test plus canary configurations (n, party, evaluator); non-trivial = the cell was filled from decoded transcripts");
+    rep.rule = format!("(1) balance: for the evaluator and a garbler (n=2), {n_per} executions with all own inputs 0 and {n_per} with all 1; per input wire the party's own mask share, recovered from the transcript only as masked_input ^ input ^ XOR of the others' shares, must be 1 in [{lo}, {hi}] of the executions. (2) canary: 128 random input bits must not occur in any message the party sends as packed bit run (either bit order), bool-byte run, decoded-bool run, nor complemented; the same for its own share vector. (3) freshness: all global keys (probe) and all 128-bit own-share vectors over all executions pairwise distinct. (5) per-peer independence: in 3- and 4-party runs no random-looking 16-byte block of a party's pairwise (non-broadcast) traffic to one peer occurs in its traffic to another peer. (4) disclosure: over 128+ executions with random inputs (3-AND circuit and a 1000-AND circuit whose preprocessing batches are full) no bit-valued field at a fixed position of the party's traffic (decoded bools, opened aShare check bits) agrees or disagrees with its own mask share of an input wire, or with the input bit, in more than 7/8 of the executions. (6) exact disclosure: over 64 executions with random inputs of a party with 9300 and 12345 input wires (aBit batches longer than 1024; thorough: also 1500, 9217, 10241, 18500 and 25000; both roles) no bit at any fixed position of the party's raw traffic (every byte of every message, incl. the packed OT-extension columns) equals or complements its own mask share of an input wire, or the input bit, in all 64 executions (chance match probability below 1e-6 per run). distinct = (role, input value, wire) cells of the balance test plus canary configurations (n, party, evaluator); non-trivial = the cell was filled from decoded transcripts");
     rep.assumptions = vec![format!("fixed thresholds: honest false-alarm probability below 1e-20 per wire at N={n_per}; biases smaller than the thresholds and computational distinguishers are not detected")];
     // (1)
     let total = 2 * 2 * n_per;
@@ -484,5 +613,20 @@ pub fn run(tier: &str, seed: u64) -> i32 {
     if thorough {
         correlation_part(&mut rep, seed ^ 0x55, n_corr, 2100);
     }
+    // (6) exact disclosure in the raw traffic with more than 9216 wires (aBit batches longer than 1024)
+    let t6 = std::time::Instant::now();
+    for p in 0..2 {
+        raw_disclosure_part(&mut rep, seed, 64, 9300, p);
+    }
+    raw_disclosure_part(&mut rep, seed ^ 0x77, 64, 12_345, (seed % 2) as usize);
+    if thorough {
+        raw_disclosure_part(&mut rep, seed ^ 0x77, 64, 12_345, ((seed + 1) % 2) as usize);
+        for (j, k) in [1500usize, 9217, 10_241, 18_500, 25_000].into_iter().enumerate() {
+            for p in 0..2 {
+                raw_disclosure_part(&mut rep, seed ^ (0x99 + j as u64), 64, k, p);
+            }
+        }
+    }
+    rep.set("raw_disclosure_wall_s", json!(t6.elapsed().as_secs_f64()));
     rep.finish()
 }
